@@ -48,8 +48,19 @@ func (g *c09Gen) scalar() ME {
 	}
 }
 
+func (g *c09Gen) arr() ME {
+	e := ME{K: "arr"}
+	for j := drawInt(g.t, 0, 3, "narr"); j > 0; j-- {
+		e.Args = append(e.Args, g.scalar())
+	}
+	return e
+}
+
 func (g *c09Gen) cond() ME {
-	switch drawInt(g.t, 0, 5, "ck") {
+	switch drawInt(g.t, 0, 6, "ck") {
+	case 6:
+		l, r := g.scalar(), g.arr()
+		return ME{K: "in", L: &l, R: &r}
 	case 0:
 		l, r := g.scalar(), g.scalar()
 		return ME{K: pick(g.t, "cmp", []string{"eq", "ne"}), L: &l, R: &r}
@@ -117,11 +128,15 @@ func (g *c09Gen) node(depth int) MNode {
 	case "for":
 		g.ids++
 		v := fmt.Sprintf("v%d", g.ids)
-		src := pick(g.t, "src", []string{"l0", "l1", "l3", "l6", "sl", "e0", "su", "sx", "m2", "m0", "nothing", "i5", "fl", "mi"})
+		src := pick(g.t, "src", []string{"l0", "l1", "l3", "l6", "sl", "e0", "su", "sx", "m2", "m0", "nothing", "i5", "fl", "mi", "hl", "hm", "al", "asl", "ma"})
 		e := ME{K: "name", N: src}
 		nd := MNode{K: "for", Name: v, E: &e, Rev: drawInt(g.t, 0, 2, "rev") == 0, Sorted: drawInt(g.t, 0, 2, "sorted") == 0}
+		if drawInt(g.t, 0, 4, "arrlit") == 0 {
+			// a sequence written in the template; its items may name the variables of the loops around it
+			e, src = g.arr(), ""
+		}
 		vars := []string{v}
-		if src == "m2" || src == "m0" || src == "mi" {
+		if src == "m2" || src == "m0" || src == "mi" || src == "hm" || src == "ma" {
 			nd.Sorted = true // maps only in sorted order (unsorted order is Go's)
 			if drawBool(g.t, "kv") {
 				nd.Name2 = v + "v"
@@ -214,6 +229,12 @@ func c09Ctx(t *rapid.T) Val {
 		"m2", Val{K: "mapSI", Ks: []Val{vStr("kb"), vStr("ka"), vStr("kc")}, E: []Val{vInt(2), vInt(1), vInt(3)}},
 		"m0", Val{K: "mapSI"},
 		"fl", Val{K: "f64s", E: []Val{vF64(2.5), vF64(10), vF64(-1.5), vF64(2.25), vF64(100)}},
+		// neighbours above 2^53: ids, nanosecond timestamps - integers that float64 cannot tell apart
+		"hl", Val{K: "ints", E: []Val{vIntK("int", 9007199254740995), vIntK("int", 9007199254740993), vIntK("int", 9007199254740994), vInt(7), vIntK("int", 9007199254740992)}},
+		"hm", Val{K: "mapIS", Ks: []Val{vIntK("int", 9007199254740993), vIntK("int", 9007199254740992), vIntK("int", 9007199254740994)}, E: []Val{vStr("b"), vStr("a"), vStr("c")}},
+		// lists of type []any (what JSON decoding and template array literals give)
+		"al", Val{K: "anys", E: []Val{vInt(10), vInt(9), vInt(-1), vInt(100), vInt(2)}}, "asl", Val{K: "anys", E: []Val{vStr("b"), vStr("a"), vStr("c")}},
+		"ma", Val{K: "mapAA", Ks: []Val{vInt(10), vInt(9), vInt(-1), vInt(100), vInt(2)}, E: []Val{vStr("ten"), vStr("nine"), vStr("minus"), vStr("hundred"), vStr("two")}},
 		"mi", Val{K: "mapIS", Ks: []Val{vInt(10), vInt(9), vInt(-1), vInt(100), vInt(2)}, E: []Val{vStr("ten"), vStr("nine"), vStr("minus"), vStr("hundred"), vStr("two")}},
 	)
 }
@@ -284,7 +305,7 @@ func checkC09(c any, r *Rec) error {
 
 var _ = register(&propSpec{
 	ID:   "C09.flow",
-	Rule: "nestings (depth <= 4) of if/elif*/else, ifequal/ifnotequal(+else), firstof, for (+empty, reversed, sorted, k,v over sorted maps), cycle (plain, as, silent) and ifchanged (with/without watched expressions, +else; only directly in a loop that runs once per render); bodies are markers, outputs of loop variables and every forloop field incl. Parentloop chains (not across an empty branch, where the property does not say what the current position is); data: int lists of length 0..6 with random contents, string lists, multi-byte strings, maps, nil, scalars (not iterable). Each case rendered once on a fresh compile and compared with a reference interpreter of the tree. Non-trivial: depth >= 2 or a for with modifier / empty; distinct by source+data.",
+	Rule: "nestings (depth <= 4) of if/elif*/else, ifequal/ifnotequal(+else), firstof, for (+empty, reversed, sorted, k,v over sorted maps), cycle (plain, as, silent) and ifchanged (with/without watched expressions, +else; only directly in a loop that runs once per render); bodies are markers, outputs of loop variables and every forloop field incl. Parentloop chains (not across an empty branch, where the property does not say what the current position is); data: int lists of length 0..6 with random contents, string lists, multi-byte strings, maps (string, int and any keys), lists of type []any, integers beyond 2^53 that float64 cannot tell apart, sequences written as array literals whose items name the variables of enclosing loops (also as the right side of in), nil, scalars (not iterable). Each case rendered once on a fresh compile and compared with a reference interpreter of the tree. Non-trivial: depth >= 2 or a for with modifier / empty; distinct by source+data.",
 	Gen: func(t *rapid.T) any {
 		g := &c09Gen{t: t}
 		var root []MNode
